@@ -9,5 +9,6 @@ pub mod access;
 pub mod model;
 pub mod eng_world;
 pub mod eng_storage;
+pub mod eng_join;
 pub mod eng_saveload;
 pub mod eng_dispatch;
